@@ -20,11 +20,14 @@ import (
 	"io"
 	"log"
 	"math/rand"
+	"net"
 	"os"
 	"os/exec"
 	"path/filepath"
 	"reflect"
 	"regexp"
+	"runtime"
+	"runtime/debug"
 	"sort"
 	"strconv"
 	"strings"
@@ -32,6 +35,7 @@ import (
 	"unicode/utf8"
 
 	"github.com/fabiolb/fabio/config"
+	"github.com/fabiolb/fabio/metrics"
 	"github.com/fabiolb/fabio/route"
 	"github.com/gobwas/glob"
 	"github.com/magiconair/properties"
@@ -138,39 +142,22 @@ func typedValue(kind string) flag.Value {
 	case "duration":
 		fs.Duration("x", 0, "")
 	case "floatslice":
-		return &floatSlice{}
+		// fabio's own floatSliceValue / stringSliceValue (config/flagset.go), obtained through
+		// the exported registration methods
+		var p []float64
+		cfs := config.NewFlagSet("t", flag.ContinueOnError)
+		cfs.FloatSliceVar(&p, "x", nil, "")
+		return cfs.Lookup("x").Value
 	case "stringslice":
-		return &stringSlice{}
+		var p []string
+		cfs := config.NewFlagSet("t", flag.ContinueOnError)
+		cfs.StringSliceVar(&p, "x", nil, "")
+		return cfs.Lookup("x").Value
 	default:
 		fs.String("x", "", "")
 	}
 	return fs.Lookup("x").Value
 }
-
-// independent re-implementations of the two fabio value types' accept/reject behaviour
-type floatSlice struct{ v []float64 }
-
-func (f *floatSlice) String() string { return fmt.Sprint(f.v) }
-func (f *floatSlice) Set(s string) error {
-	f.v = nil
-	for _, x := range strings.Split(s, ",") {
-		x = strings.TrimSpace(x)
-		if x == "" {
-			continue
-		}
-		v, err := strconv.ParseFloat(x, 64)
-		if err != nil {
-			return err
-		}
-		f.v = append(f.v, v)
-	}
-	return nil
-}
-
-type stringSlice struct{ v []string }
-
-func (f *stringSlice) String() string     { return strings.Join(f.v, ",") }
-func (f *stringSlice) Set(s string) error { f.v = strings.Split(s, ","); return nil }
 
 func wellFormed(kind, raw string) bool { return typedValue(kind).Set(raw) == nil }
 
@@ -506,6 +493,7 @@ func childMain(spec string) {
 	var in struct {
 		Args, Env   []string
 		Fingerprint bool
+		Start       bool
 	}
 	if err := json.Unmarshal([]byte(spec), &in); err != nil {
 		os.Exit(90)
@@ -516,6 +504,9 @@ func childMain(spec string) {
 		fmt.Println("C15-FP " + fingerprintResult(cfg, err))
 		os.Exit(0)
 	}
+	if in.Start {
+		childStart(cfg, err)
+	}
 	switch {
 	case err != nil:
 		fmt.Println("C15-CHILD error")
@@ -525,6 +516,65 @@ func childMain(spec string) {
 		fmt.Println("C15-CHILD config")
 	}
 	os.Exit(0)
+}
+
+// childStart does, with a configuration config.Load returned, what main() does with it before
+// serving (main.go:135 metrics.Initialize, :138 initRuntime, :170/:194 route.NewGlobCache,
+// :322-368 and route/table.go:46-48 the counters, gauges and histograms, one observation
+// each).  A panic is caught and reported; the process is thrown away afterwards.
+func childStart(cfg *config.Config, err error) {
+	if err != nil || cfg == nil {
+		fmt.Println("C15-START rejected")
+		os.Exit(0)
+	}
+	defer func() {
+		if v := recover(); v != nil {
+			fmt.Printf("C15-START panic %v\n", v)
+			os.Exit(0)
+		}
+	}()
+	p, err := metrics.Initialize(&cfg.Metrics)
+	if err != nil {
+		fmt.Println("C15-START fatal " + strings.ReplaceAll(err.Error(), "\n", " "))
+		os.Exit(0)
+	}
+	debug.SetGCPercent(cfg.Runtime.GOGC)
+	runtime.GOMAXPROCS(cfg.Runtime.GOMAXPROCS)
+	gc := route.NewGlobCache(cfg.GlobCacheSize)
+	gc.Get("/foo/*")
+	p.NewCounter("notfound").Add(1)
+	p.NewGauge("ws.conn").Set(1)
+	p.NewHistogram("requests").Observe(0.01)
+	p.NewHistogram("http.status", "code").With("code", "200").Observe(0.02)
+	p.NewHistogram("route", "service", "host", "path", "target").With("service", "s", "host", "h", "path", "/p", "target", "t").Observe(0.03)
+	p.NewCounter("route.rx", "service", "host", "path", "target").With("service", "s", "host", "h", "path", "/p", "target", "t").Add(7)
+	time.Sleep(25 * time.Millisecond)
+	fmt.Println("C15-START started")
+	os.Exit(0)
+}
+
+// runStart: 0 started, 1 Initialize returned an error (main exits with a FATAL line), 3 panic,
+// 4 rejected by config.Load
+func runStart(args, env []string) (int, string) {
+	spec, _ := json.Marshal(map[string]interface{}{"Args": args, "Env": env, "Start": true})
+	cmd := exec.Command(os.Args[0])
+	cmd.Env = append(os.Environ(), "VERIF_C15_CHILD="+string(spec))
+	b, err := cmd.CombinedOutput()
+	out := string(b)
+	k := strings.Index(out, "C15-START ")
+	if k < 0 || err != nil {
+		return 3, "child died: " + out[:min(len(out), 300)]
+	}
+	line := strings.SplitN(out[k+len("C15-START "):], "\n", 2)[0]
+	switch {
+	case strings.HasPrefix(line, "started"):
+		return 0, line
+	case strings.HasPrefix(line, "fatal"):
+		return 1, line
+	case strings.HasPrefix(line, "rejected"):
+		return 4, line
+	}
+	return 3, line
 }
 
 // runChild returns the exit code and whether the child died with a Go panic trace.
@@ -759,6 +809,9 @@ func main() {
 
 	// ===== 5b. histories: several Loads in this one process =====
 	genHistoryCases(run, r, opts)
+
+	// ===== 5d. accepted => can be started =====
+	genStartCases(run, r)
 
 	// ===== 5c. degenerate values of every option from every source =====
 	genDegenerateCases(run, r, opts)
@@ -1160,13 +1213,18 @@ func genGlobCases(run *vh.Run, r *rand.Rand) {
 				continue
 			}
 			var gerr error
+			_, _, _, before := gc.VerifState()
+			hit := false
+			for _, k := range before {
+				hit = hit || k == pat
+			}
 			if p, _ := vh.Recover(func() { _, gerr = gc.Get(pat) }); p {
 				outs = append(outs, vh.Panic)
 				stopped = true
 			} else if gerr != nil {
 				outs = append(outs, vh.Err(1))
 			} else {
-				outs = append(outs, vh.Ok("true"))
+				outs = append(outs, vh.Ok(vh.Bool(hit)))
 			}
 		}
 		if impl == "" {
@@ -1176,7 +1234,12 @@ func genGlobCases(run *vh.Run, r *rand.Rand) {
 		if c.disabled != 0 {
 			class = "glob-cache-size-x-matching-disabled"
 		}
-		run.Add(class, vh.App("CGlob", vh.Z(int64(size)), vh.Bool(disabled), vh.Bool(accepted), vh.List(calls), impl),
+		final := vh.None
+		if gc != nil {
+			_, h, n, keys := gc.VerifState()
+			final = vh.Some("(" + vh.N(h) + ", " + vh.N(n) + ", " + strs(keys) + ")")
+		}
+		run.Add(class, vh.App("CGlob", vh.Z(int64(size)), vh.Bool(disabled), vh.Bool(accepted), vh.List(calls), impl, final),
 			map[string]interface{}{"size": size, "glob.matching.disabled": []string{"not given", "true", "false"}[c.disabled], "accepted": accepted,
 				"source_size": c.ks, "source_disabled": c.kd, "patterns": sampleCalls, "impl": impl, "arrangement": a})
 	}
@@ -1410,6 +1473,131 @@ func genHistoryCases(run *vh.Run, r *rand.Rand, opts []option) {
 			run.Violation(id, "config.Load panicked in a sequence of well-formed Loads", sample)
 		}
 	}
+}
+
+// ---------- accepted => can be started ----------
+func genStartCases(run *vh.Run, r *rand.Rand) {
+	// local sinks so that the providers have something to resolve and send to
+	udp, _ := net.ListenPacket("udp", "127.0.0.1:0")
+	tcp, _ := net.Listen("tcp", "127.0.0.1:0")
+	if udp == nil || tcp == nil {
+		run.Exclude("no loopback sockets for the metrics sinks")
+		return
+	}
+	defer udp.Close()
+	defer tcp.Close()
+	go func() {
+		for {
+			c, err := tcp.Accept()
+			if err != nil {
+				return
+			}
+			go func() { io.Copy(io.Discard, c); c.Close() }()
+		}
+	}()
+	udpAddr, tcpAddr := udp.LocalAddr().String(), tcp.Addr().String()
+	str := func(n string) option { return option{Name: n, Kind: "string"} }
+	interval := option{Name: "metrics.interval", Kind: "duration"}
+	targets := []string{"statsd_raw", "dogstatsd", "graphite", "prometheus", "flat", "label", "", "statsd_raw,prometheus"}
+	ticker := map[string]bool{"statsd_raw": true, "dogstatsd": true, "graphite": true, "statsd_raw,prometheus": true}
+	values := []string{"0", "0s", "-1s", "-1ns", "1ns", "1ms", "30s", "2562047h", "-2562047h"}
+	n := 0
+	for ti, target := range targets {
+		for vi, v := range values {
+			if !run.Thorough() && !ticker[target] && vi%3 != ti%3 {
+				continue
+			}
+			for _, k := range []int{1 + (n % 4), 1 + ((n + 1 + vi) % 4)}[:run.Scale(1, 2)] {
+				n++
+				a := arrangement{}
+				place(r, &a, interval, k, v)
+				place(r, &a, str("metrics.target"), 1+(n+ti)%4, target)
+				place(r, &a, str("metrics.statsd.addr"), 1+n%4, udpAddr)
+				place(r, &a, str("metrics.dogstatsd.addr"), 1+(n+1)%4, udpAddr)
+				place(r, &a, str("metrics.graphite.addr"), 1+(n+2)%4, tcpAddr)
+				args, ok := buildArgs(a)
+				if !ok {
+					run.Exclude("value not expressible in the properties file syntax")
+					continue
+				}
+				out, line := runStart(args, a.Env)
+				d, _ := time.ParseDuration(v)
+				accepted := out != 4
+				run.Add("accepted-then-start-metrics-interval", vh.App("CMetricsStart", vh.Z(int64(d)), vh.Bool(ticker[target]), vh.Bool(accepted), vh.N(out)),
+					map[string]interface{}{"metrics.interval": v, "metrics.target": target, "source": k, "accepted": accepted, "outcome(0 started,1 fatal,3 panic,4 rejected)": out, "line": line})
+			}
+		}
+	}
+	// other options that reach start-up code: no model, a panic after acceptance is a violation
+	type probe struct {
+		name, kind, value string
+		extra             [][2]string
+	}
+	probes := []probe{
+		{"metrics.prometheus.buckets", "floatslice", "2,1", [][2]string{{"metrics.target", "prometheus"}}},
+		{"metrics.prometheus.buckets", "floatslice", "1,1", [][2]string{{"metrics.target", "prometheus"}}},
+		{"metrics.prometheus.buckets", "floatslice", "NaN", [][2]string{{"metrics.target", "prometheus"}}},
+		{"metrics.prometheus.buckets", "floatslice", "1,2,+Inf", [][2]string{{"metrics.target", "prometheus"}}},
+		{"metrics.prometheus.buckets", "floatslice", "Inf", [][2]string{{"metrics.target", "prometheus"}}},
+		{"metrics.prometheus.buckets", "floatslice", ",", [][2]string{{"metrics.target", "prometheus"}}},
+		{"metrics.prometheus.buckets", "floatslice", "-1,0,1", [][2]string{{"metrics.target", "prometheus"}}},
+		{"metrics.prometheus.subsystem", "string", "a-b c/\u00e9", [][2]string{{"metrics.target", "prometheus"}}},
+		{"metrics.prometheus.subsystem", "string", "9", [][2]string{{"metrics.target", "prometheus"}}},
+		{"metrics.prefix", "string", "", [][2]string{{"metrics.target", "prometheus"}}},
+		{"metrics.prefix", "string", "9.{{clean .Exec}}-x", [][2]string{{"metrics.target", "prometheus"}}},
+		{"metrics.prefix", "string", "{{.Nope}}", [][2]string{{"metrics.target", "statsd_raw"}}},
+		{"metrics.prefix", "string", "{{", [][2]string{{"metrics.target", "flat"}}},
+		{"metrics.names", "string", "{{", nil},
+		{"metrics.target", "string", "nosuch", nil},
+		{"metrics.target", "string", " , ,flat", nil},
+		{"metrics.statsd.addr", "string", "not an address", [][2]string{{"metrics.target", "statsd_raw"}}},
+		{"metrics.statsd.addr", "string", "", [][2]string{{"metrics.target", "statsd_raw"}}},
+		{"metrics.graphite.addr", "string", ":-1", [][2]string{{"metrics.target", "graphite"}}},
+		{"metrics.circonus.apikey", "string", "", [][2]string{{"metrics.target", "circonus"}}},
+		{"runtime.gogc", "int", "-1", nil}, {"runtime.gogc", "int", "0", nil}, {"runtime.gogc", "int", "2147483647", nil},
+		{"runtime.gomaxprocs", "int", "0", nil}, {"runtime.gomaxprocs", "int", "-7", nil}, {"runtime.gomaxprocs", "int", "100000", nil},
+		{"glob.cache.size", "int", "1", nil}, {"glob.cache.size", "int", "2147483647", nil},
+	}
+	stats := map[string]int{}
+	for i, pb := range probes {
+		for _, k := range []int{1 + i%4, 1 + (i+2)%4}[:run.Scale(1, 2)] {
+			a := arrangement{}
+			place(r, &a, option{Name: pb.name, Kind: pb.kind}, k, pb.value)
+			for j, e := range pb.extra {
+				place(r, &a, str(e[0]), 1+(i+j+k)%4, e[1])
+			}
+			args, ok := buildArgs(a)
+			if !ok {
+				run.Exclude("value not expressible in the properties file syntax")
+				continue
+			}
+			out, line := runStart(args, a.Env)
+			stats[[]string{"started", "fatal-error", "", "PANIC", "rejected-by-load"}[out]]++
+			if out == 3 {
+				what := pb.name + "=" + pb.value
+				if pb.name == "metrics.prometheus.buckets" {
+					increasing := true
+					var prev float64
+					for j, x := range strings.Split(pb.value, ",") {
+						f, err := strconv.ParseFloat(strings.TrimSpace(x), 64)
+						if err != nil {
+							continue
+						}
+						if j > 0 && !(prev < f) {
+							increasing = false
+						}
+						prev = f
+					}
+					if !increasing {
+						what = "metrics.prometheus.buckets not strictly increasing (" + pb.value + ")"
+					}
+				}
+				run.Violation(-1, fmt.Sprintf("accepted configuration cannot be started: %s panics at start-up", what),
+					map[string]interface{}{"option": pb.name, "value": pb.value, "with": pb.extra, "source": k, "panic": line})
+			}
+		}
+	}
+	run.Notes["accepted_then_start_probes"] = stats
 }
 
 // ---------- degenerate values ----------
